@@ -99,9 +99,7 @@ def build_fault_corpus(tier):
         for (P, mpon) in ((1, False), (3, True)):
             for what in fault_points(3, c["K"]):
                 jobs.append((c, what, P, mpon))
-    ctx = mp.get_context("fork")
-    with cf.ProcessPoolExecutor(max_workers=common.NCPU, mp_context=ctx) as ex:
-        exps = list(ex.map(experiment, jobs, chunksize=1))
+    exps = common.pmap(experiment, jobs)
     # donor shortage and swapped front-end inputs
     extra = []
     for i in range(2 if tier == "quick" else 8):
